@@ -140,6 +140,7 @@ class ExprGen:
         self.rng = rng
         self.cfg = cfg or {}
         self.sql_safe = self.cfg.get("sql_safe", True)
+        self.lit_operand_ok = False  # set while the operand of an aggregate / window function is generated
 
     # scope: list of (exprjson, fam)
     def cols_of(self, scope, fam):
@@ -296,6 +297,9 @@ class ExprGen:
         cs = self.cols_of(scope, fam)
         if not cs:
             return self.expr(fam, scope, 0)
+        if self.lit_operand_ok and fam in ("int", "float", "bool", "str") and self.rng.random() < 0.06:
+            # the operand of an aggregate / window function may be a literal: one value per row of the group
+            return lit(self.leaf(fam, [], True)["v"]) | {"wrap": True}
         if depth <= 0 or self.rng.random() < 0.5:
             return self.rng.choice(cs)
         return self.nonconst(fam, scope, depth)
@@ -337,6 +341,13 @@ class ExprGen:
 
     # ---- aggregates / windows -------------------------------------------------------------
     def agg(self, scope, depth, allow_filter=True, pb=None, want=None):
+        self.lit_operand_ok = True
+        try:
+            return self._agg(scope, depth, allow_filter, pb, want)
+        finally:
+            self.lit_operand_ok = False
+
+    def _agg(self, scope, depth, allow_filter=True, pb=None, want=None):
         rng = self.rng
         choices = ["sum", "mean", "min", "max", "count", "count_star", "any", "all"]
         op = rng.choice(choices)
@@ -412,6 +423,13 @@ class ExprGen:
         return keys
 
     def window(self, scope, depth, total_key=None, pb=None, need_arrange=True):
+        self.lit_operand_ok = True
+        try:
+            return self._window(scope, depth, total_key, pb, need_arrange)
+        finally:
+            self.lit_operand_ok = False
+
+    def _window(self, scope, depth, total_key=None, pb=None, need_arrange=True):
         rng = self.rng
         op = rng.choice(["row_number", "rank", "dense_rank", "shift", "cum_sum"])
         kw = {}
